@@ -340,7 +340,7 @@ def _world(ctx, wd):
         with open(os.path.join(d, f), "w") as fh:
             fh.write("X\n1\n2\n")
     wdir = d if wd in ("abs", "abs-copied") else os.path.relpath(d) if wd == "rel" else "" if wd == "empty" else "/" if wd == "root" else None
-    program = arr.new_program(arr.CSV_LIBS + ("vprobe",), working_dir=wdir)
+    program = arr.new_program(arr.CSV_LIBS + ("vprobe", "usercmds"), working_dir=wdir)
     program._wd_given = wdir
     arr.standin(program, "A", numpy.ma.array([1.0, 2.0, 3.0]), fuzzy=False)
     arr.standin(program, "F", numpy.ma.array([0.5, -0.5, 1.0]), fuzzy=True)
@@ -351,6 +351,9 @@ def _world(ctx, wd):
     program.add_command(program.find_command_class("NoOut"), "V", {})
     # a command that is going to fail when it is run (it is run, once, only after everything else was judged)
     program.add_command(program.find_command_class("Flaky"), "Bad", {})
+    # a copy of a fuzzy field (a copy is not declared fuzzy), and a command of a user class that inherits its fuzziness
+    program.add_command(program.find_command_class("Copy"), "CF", {"InFieldName": "F"})
+    program.add_command(program.find_command_class("MyOr"), "MO", {"InFieldNames": ["F"]})
     # other programs of the process use other libraries: the NetCDF set is loaded in some worlds before anything is cleaned
     if wd in ("rel", "abs-copied", "none"):
         arr.new_program(arr.NC_LIBS)
@@ -481,6 +484,30 @@ def run_case(ctx, case):
                 return "ok", param.clean(raw, program, 7)
             except Exception as e:
                 return type(e).__name__, None
+        cf = program.commands["CF"]
+        raws2 = ["CF", cf, ["A", "CF"], "MO", ["MO"]]
+        before2 = [outcome(r) for r in raws2]
+        try:
+            cf.result
+            program.commands["MO"].result
+        except Exception as e:
+            ctx.note_inconclusive("copy / subclass command of the world raises %s" % type(e).__name__)
+        after2 = [outcome(r) for r in raws2]
+        for raw, (ob, rb), (oa, ra) in zip(raws2, before2, after2):
+            ctx.count("clean_calls_judged")
+            # (a reference that was refused on the strength of the declared output may be judged by the actual result once
+            # there is one: only references that cleaned to a command before are followed up)
+            if ob == "ok" and isinstance(param, P.ResultParameter) and param.output_type is not None and not isinstance(param.output_type, P.DataParameter):
+                continue
+            if ob == "ok" and oa != "ok":
+                ctx.fail("%s:%s:reference-cleans-differently-once-the-command-has-run:%s-instead-of-%s" % (label, value_class(raw), oa, ob), {"raw": repr(raw)[:120]})
+                break
+        if isinstance(param, P.ResultParameter) and param.is_fuzzy is not None:
+            # a class that extends a fuzzy command is fuzzy itself
+            o_mo = outcome("MO")[0]
+            want_mo = "ok" if param.is_fuzzy else "ResultIsFuzzy"
+            if o_mo != want_mo:
+                ctx.fail("%s:str:word:command-of-a-class-extending-a-fuzzy-one:%s-instead-of-%s" % (label, o_mo, want_mo), {})
         before = [outcome(r) for r in raws]
         vprobe.FLAKY["fail"] = True
         vprobe.FLAKY["exc"] = [IOError, ValueError, TypeError][case["config"] % 3]
@@ -536,6 +563,17 @@ def run_case(ctx, case):
                 break
     if isinstance(param, P.PathParameter) and case["wd"] == "abs":
         # the same parameter object serves every program of the process: a second program with another working directory
+        # a program that holds no command yet (it is a program all the same: its working directory counts)
+        from mpilot.program import Program as _PE
+        empty = _PE(working_dir=d)
+        for raw in ("in.csv", "sub/in.csv"):
+            ctx.count("clean_calls_judged")
+            try:
+                r = param.clean(raw, empty, 7)
+                if os.path.normpath(r) != os.path.normpath(os.path.join(d, raw)):
+                    ctx.fail("%s:str:word:program-without-commands:relative-path-not-resolved-against-working-dir" % label, {"raw": raw, "result": r})
+            except Exception as e:
+                ctx.fail("%s:str:word:program-without-commands:raises-%s" % (label, type(e).__name__), {"raw": raw})
         program2, d2 = _world(ctx, "abs")
         for raw in ("in.csv", "sub/in.csv", "./in.csv"):
             try:
